@@ -110,7 +110,7 @@ def tzcascade_requests(ctx, items):
             except OverflowError:
                 out[i] = "err OverflowError"     # the zone object's own overflow at the edge of the calendar
                 continue
-            where.append((i, None))
+            where.append((i, naive))
         elif r.startswith("ok tzi "):
             data, nm = r[7:].split(" ")
             if data == "n":
@@ -130,7 +130,10 @@ def tzcascade_requests(ctx, items):
             where.append((i, lab))
     if second:
         for (i, lab), r in zip(where, ctx.driver(second)):
-            out[i] = "ok " + (r[3:] if lab is None else "%s %s" % (lab, r[3:]))
+            if isinstance(lab, datetime.datetime):      # process zone: "utc" | "local f" -> what a tzlocal built now says
+                out[i] = "ok " + (L.local_desc(lab, int(r.split()[2])) if r.startswith("ok local ") else r[3:])
+            else:
+                out[i] = "ok %s %s" % (lab, r[3:])
     return out
 
 
@@ -323,6 +326,10 @@ def oracle(ctx):
                             continue                     # keep the (capped) violation list for anything else
                     ctx.violation("text accepted without fuzzy must give the same result with fuzzy", case,
                                   {"strict": strict, "fuzzy": f2})
+        # ---- (c') the local-name rows after process-zone switches: zones sharing an abbreviation, time.tzset() between calls
+        #      and back; every answer against the model for that zone and a fresh process whose only zone that was
+        L.zone_switch_run(ctx, ctx.subrng("zone-switch"), G.ZONE_GROUPS, ctx.budget(40, 400),
+                          "zone resolution (an abbreviation of the process zone)")
         # ---- (e) unknown abbreviation: naive + warning (TZ-independent)
         L.set_tz("UTC")
         for nm in ["BRST", "JST", "ABCDE", "XYZ", "PDT"]:
@@ -354,6 +361,8 @@ KNOWN = {
 def replay(ctx, payload):
     import copy
     c = payload["violation"]["case"]
+    if c.get("TZ_sequence") is not None:
+        return L.zone_switch_replay(ctx, c)
     base = L.call_from_case(c)
     def variant(**kw):
         x = copy.copy(base)
